@@ -1,3 +1,4 @@
 -- Root of the `RactorModel` library: every model, lemma and property module.
+import RactorModel.Extracted
 import RactorModel.Props.C18
 import RactorModel.Props.C01
